@@ -179,7 +179,16 @@ fn build(scn: &Scn) -> Built {
                 id,
                 mask: [0u16, 0, 1, 4, 0xFFFF, 0x8000][(e.seed >> 33) as usize % 6],
                 serial: e.serial,
-                timestamp: base + k as u32,
+                // the DAQ host's wall clock in the event header: steady, stepping back and forth, or
+                // meaningless - the programs go by file order
+                timestamp: {
+                    let h = (e.seed ^ 0x51ED_270B).wrapping_mul(0x9E37_79B9_7F4A_7C15) >> 32;
+                    match (scn.t0 >> 9) % 3 {
+                        0 => base + k as u32,
+                        1 => (base + k as u32 + 3).wrapping_sub((h % 7) as u32),
+                        _ => [0u32, u32::MAX, 1, h as u32, base, (h >> 3) as u32][(h % 6) as usize],
+                    }
+                },
                 width: widths[f.width as usize % 3],
                 banks: banks.into_iter().map(|(name, data)| Bank { name, data }).collect(),
             });
